@@ -26,6 +26,12 @@ def _engine_hash():
 def _file_hash(f: str):
     """cache key of one verified file: engine + contracts + the file + tokenizer.py (class shapes read constants from its __init__)"""
     h = _engine_hash()
+    try:
+        # binder lists / shapes of the baseline decide whether a contract is re-written for renamed binders (engine/alpha.py)
+        bl = json.load(open(BASELINE))
+        h.update(json.dumps({k: [v.get("binders"), v.get("shape")] for k, v in sorted(bl.items())}).encode())
+    except (OSError, ValueError):
+        pass
     for g in dict.fromkeys([f, "peg_parser/tokenizer.py"]):
         try:
             h.update(open(os.path.join(REPO, g), "rb").read())
@@ -77,7 +83,7 @@ def run_all(tier: str):
                 part[f + ":<module>"] = {"vcs": [], "unsupported": f"source does not parse: {e}", "seconds": 0.0, "fhash": "syntax-error"}
                 res = {}
             for name, d in res.items():
-                part[name] = {"unsupported": d["unsupported"], "seconds": d["seconds"], "fhash": function_hash(src, name.split(":")[1]),
+                part[name] = {"unsupported": d["unsupported"], "seconds": d["seconds"], "fhash": function_hash(src, name.split(":")[1]), "renamed": d.get("renamed"),
                               "vcs": [{"id": v.id, "kind": v.kind, "desc": v.desc, "status": v.status, "seconds": v.seconds,
                                        "backend": v.backend, "model": v.model, "lineno": v.lineno} for v in d["vcs"]]}
             pickle.dump(part, open(cpath + ".tmp", "wb"))
@@ -122,6 +128,8 @@ def file_into(rep: Report, prop: str, tier: str, kinds=None, only=None, all_cont
         if d is None:
             rep.undecided(f"{prop}.E1.{short}", "contract", f"verify {short}", "pyvc", "no result (file failed to load)", function=name)
             continue
+        if d.get("renamed"):
+            rep.notes.append(f"{short}: binders were renamed since the baseline ({d['renamed']}); the sidecar contract was re-written accordingly (same statement shape)")
         if d["unsupported"]:
             b = base.get(name, {})
             if b and b.get("fhash") != d["fhash"]:
